@@ -7,3 +7,22 @@ package sseutil
 //@ func Writer.WriteEvent
 //@   modifies *, status(w)
 //@   ensures result == nil ==> status(w) != 0
+
+// ---------------------------------------------------------------------------
+// C10 — event ids of one generator are pairwise distinct.
+// idctr(s): the number after the last '-' of an id text (what Sprintf("evt-%d-%d", ts, n)
+// prints for n; assumed in std.spec).  gens / lastgen / lastgenw: ghost record of the
+// calls of GenerateEventID (how many, the last id, the generator that made it).
+
+//@ ghost stable gens int
+//@ ghost stable lastgen string
+//@ ghost stable lastgenw *Writer
+//@ type Writer
+//@   private[C10] eventCounter writers GenerateEventID
+//@ func Writer.GenerateEventID
+//@   counted gens
+//@   records lastgen ret0
+//@   records lastgenw sw
+//@   modifies sw.eventCounter, gens, lastgen, lastgenw
+//@   ensures[C10 counter-strictly-increases] sw.eventCounter == old(sw.eventCounter) + 1
+//@   ensures[C10 id-text-carries-the-counter] idctr(result) == sw.eventCounter
